@@ -186,6 +186,13 @@ def run(e: Engine, rep: Report):
     t4(e, rep)
     t3_pipe(e, rep)
     t5(e, rep)
+    rep.rule('T6', 'a timeout given to a constructor reaches the base '
+             'class under its own name: in every super().__init__(...) of '
+             'the relay / edge / server classes an argument that is a '
+             '`*timeout*` parameter is bound to the base parameter of the '
+             'same name (positional forwarding that went out of step '
+             'leaves the duration None: no timeout at all)')
+    t6(e, rep)
     pool.request_typestate(e, rep, 'T3', only_exc=(TIMEOUT,))
 
 
@@ -398,3 +405,68 @@ def t5(e: Engine, rep: Report):
                       loc=init.loc(d),
                       reason='`%s` is set whenever %s is'
                       % (ast.unparse(d.value), fb))
+
+
+# ---------------------------------------------------------------------- T6
+def t6(e: Engine, rep: Report):
+    n = 0
+    for cq, c in sorted(e.p.classes.items()):
+        if not c.module.name.startswith('slimta.'):
+            continue
+        init = c.methods.get('__init__')
+        if init is None:
+            continue
+        for x in walk_own(init.node):
+            if not (isinstance(x, ast.Call) and
+                    isinstance(x.func, ast.Attribute) and
+                    x.func.attr == '__init__'):
+                continue
+            # super(...).__init__(...) / Base.__init__(self, ...)
+            base_init, skip = None, 0
+            v = x.func.value
+            if isinstance(v, ast.Call) and isinstance(v.func, ast.Name) and \
+                    v.func.id == 'super':
+                mro = e.p.mro(cq)[1:]
+                for k in mro:
+                    kc = e.p.classes.get(k)
+                    if kc is not None and '__init__' in kc.methods:
+                        base_init = kc.methods['__init__']
+                        break
+            elif isinstance(v, (ast.Name, ast.Attribute)):
+                q = e.p.resolve_expr_qname(c.module, v)
+                kc = e.p.classes.get(q) if q else None
+                if kc is not None and '__init__' in kc.methods:
+                    base_init = kc.methods['__init__']
+                    skip = 1
+            if base_init is None:
+                continue
+            bparams = list(base_init.params)[1:]
+            args = list(x.args)[skip:]
+            if any(isinstance(a, ast.Starred) for a in args):
+                continue
+            for i, a in enumerate(args):
+                if not (isinstance(a, ast.Name) and 'timeout' in a.id and
+                        a.id in init.params):
+                    continue
+                n += 1
+                rep.evaluations += 1
+                rep.functions.add(init.qname)
+                bound = bparams[i] if i < len(bparams) else None
+                rep.check(bound == a.id or a.id not in bparams, 'T6',
+                          init.qname, 'argument `%s` reaches the base '
+                          'parameter of that name' % a.id,
+                          '`%s` is passed in position %d of %s, which is '
+                          'the base parameter `%s`; the base constructor '
+                          'also has a parameter `%s`, which stays at its '
+                          'default: the configured duration never arrives '
+                          'where the Timeout scope reads it, and the '
+                          'operation it was to bound can hang for ever'
+                          % (a.id, i + 1, base_init.qname, bound, a.id),
+                          loc=init.loc(x), reason='same name on both sides')
+            for k in x.keywords:
+                if k.arg and 'timeout' in k.arg:
+                    n += 1
+    rep.evaluations += 1
+    if n < 2:
+        rep.error('anchor vanished: timeout arguments forwarded to base '
+                  'constructors (%d < 2)' % n)
